@@ -121,7 +121,7 @@ PROPS = {
                 level_note=LEVEL_NOTE,
                 aspects=['hist:removals'], monitors=['C01'],
                 theorems=['Esc.P.C01_scan', 'Esc.P.C01_history', 'Esc.P.C01_scan_partial', 'Esc.P.C01_history_partial', 'Esc.P.C01_unreadable', 'Esc.P.C01_untainted',
-                          'Esc.P.C01_cordoned', 'Esc.P.inRange_all', 'Esc.P.C01_T1_witness_repaired', 'Esc.P.goAge_wraps_without_guard', 'Esc.P.gen_reapAppend_readable', 'Esc.P.gen_reapAppend_unreadable', 'Esc.P.gen_reaperCands_eq', 'Esc.P.gen_forceCands_eq', 'Esc.P.C01_source_reaper', 'Esc.P.gen_reap_translation_complete']),
+                          'Esc.P.C01_cordoned', 'Esc.P.inRange_all', 'Esc.P.C01_T1_witness_repaired', 'Esc.P.goAge_wraps_without_guard', 'Esc.P.gen_reapAppend_readable', 'Esc.P.gen_reapAppend_unreadable', 'Esc.P.gen_reaperCands_eq', 'Esc.P.gen_forceCands_eq', 'Esc.P.C01_source_reaper', 'Esc.P.gen_reap_translation_complete', 'Esc.P.gen_taintTime_eq', 'Esc.P.C01_source_taint_time', 'Esc.P.gen_taintTime_translation_complete']),
     'C02': dict(level='proof', module='EscProofs.P.Fresh',
                 # the last stream of each tier lets the credentials refresh fail (provider rebuilt inside a cool-down): 5 s of real sleep each
                 streams=dict(quick=[('scenario', ['-dir', '@ROOT/corpus/C02']), ('hist', ['-n', 400, '-scans', 10, '-focus', 'cooldown']),
